@@ -197,6 +197,14 @@ P_FLEX_3X2 = (
     (((1,), 2), ((0, 1), 1)),
 )
 
+# durations beyond the 24-bit mantissa of float32 (dispatcher-level checks only:
+# the feature observers are float32 by design)
+_T = 2**30
+P_HUGE = [
+    _nf([[(0, _T), (1, 1370)], [(0, 1400), (1, _T)]]),
+    _nf([[(0, _T + 1), (1, 3)], [(1, _T), (0, 2)], [(0, 5)]]),
+    ((((0, 1), _T), ((1,), 7)), (((1,), _T + 3), ((0, 1), 2))),
+]
 P_SMALL = [P_2X2, P_RECIRC, P_FLEX_UNUSED, P_SINGLE_MACHINE, P_ZERO, P_FLEX_3X2, P_FLEX_REV, P_FLEX3]
 P_LARGE = [P_EXAMPLE, P_EXAMPLE2, P_IRREGULAR, P_4JOBS, P_SINGLE_JOB]
 P_ALL = P_SMALL + P_LARGE
